@@ -35,6 +35,9 @@ TEMPLATES = {
                        maximal=None, minimal="ABCBD", n_variants=None),
     "dacapo_coda": dict(sections="ABCD", marks=[("tocoda", "A"), ("dacapo", "C"), ("coda", "D")],
                         maximal=None, minimal="ABCAD", n_variants=None),
+    # a tie from the repeated section into its first ending: the second visit of A must not tie into the first ending's copy
+    "volta_tie": dict(sections="ABC", marks=[("repeat", "A", "B"), ("ending", "1", "B"), ("ending", "2", "C")],
+                      maximal="ABAC", minimal="AC", n_variants=None, tie=True),
     "dacapo_fine": dict(sections="AB", marks=[("fine", "A"), ("dacapo", "B")], maximal="ABA", minimal=None, n_variants=None),
 }
 
@@ -171,6 +174,12 @@ def check_unfolded(new, orig_part, bounds, visits, update_ids, label, template=N
         for ref in (n.tie_next, n.tie_prev):
             if ref is not None:
                 check(any(ref is g for g in allnotes), label + ": tie reference leaves the copy", name)
+        if n.tie_next is not None:
+            check(n.tie_next.tie_prev is n and n.tie_next.start.t == n.end.t,
+                  label + ": tie does not lead to the adjacent note of the same visit", name, n.end.t, n.tie_next.start.t)
+        if n.tie_prev is not None:
+            check(n.tie_prev.tie_next is n and n.tie_prev.end.t == n.start.t,
+                  label + ": tie does not come from the adjacent note of the same visit", name, n.start.t, n.tie_prev.end.t)
     pts = list(new._points)
     for i, p in enumerate(pts):
         check(p.prev is (pts[i - 1] if i else None) and p.next is (pts[i + 1] if i + 1 < len(pts) else None),
@@ -179,6 +188,8 @@ def check_unfolded(new, orig_part, bounds, visits, update_ids, label, template=N
         for ref in (sl.start_note, sl.end_note):
             if ref is not None:
                 check(any(ref is g for g in got), label + ": slur reference leaves the copy")
+        if sl.start_note is not None and sl.end_note is not None:
+            check(sl.start_note.start.t <= sl.end_note.start.t, label + ": slur runs backwards in the copy")
     return total
 
 
@@ -192,9 +203,12 @@ def make(template, update_ids=True):
 
         L = [kw["L%d" % i] for i in range(k)]
         for x in L:
-            require(1 <= x <= 10 ** 4)
+            # (templates with a tie over a section boundary make the library format a warning with the time points
+            # involved, which realises them: small lengths there)
+            require(1 <= x <= (4 if t.get("tie") else 10 ** 4))
         for i in range(2, k):
-            require(L[i] == 3 + i)  # two symbolic lengths, the others pinned (fewer orderings of the shifted positions)
+            # two symbolic lengths, the others pinned (fewer orderings of the shifted positions)
+            require(L[i] == ((3 + i) if not t.get("tie") else 2 + (i % 2)))
         # recorded finding: an object that starts in a visited section and ends beyond it keeps its full extent
         exclude_known("KF-C09-crossing-object-extent", template == "dacapo_fine_slur")
         if t.get("inner"):
@@ -230,7 +244,7 @@ def make(template, update_ids=True):
 
 def _inst(tier):
     out = [{"template": "plain"}, {"template": "repeat_mid"}, {"template": "volta"}, {"template": "repeat_start", "update_ids": False},
-           {"template": "dacapo_fine"}, {"template": "nested"}, {"template": "repeat_mid_inner"}, {"template": "segno_coda"}]
+           {"template": "dacapo_fine"}, {"template": "nested"}, {"template": "repeat_mid_inner"}, {"template": "segno_coda"}, {"template": "volta_tie"}]
     if tier != "quick":
         out += [{"template": "two_repeats"}, {"template": "plain_tie"}, {"template": "repeat_mid_tie"}, {"template": "repeat_mid", "update_ids": False}, {"template": "volta", "update_ids": False},
                 {"template": "dacapo_coda"}, {"template": "segno_coda", "update_ids": False}]
